@@ -1,0 +1,41 @@
+//! Read-only structural snapshot for external verification tooling.
+//! Compiled only with `--cfg itree_verif`.
+use crate::set::node::Color;
+use crate::set::tree::SetTree;
+
+pub struct VerifNode<V> {
+    pub parent: u32,
+    pub left: u32,
+    pub right: u32,
+    pub red: bool,
+    pub value: V,
+}
+
+pub struct VerifSnapshot<V> {
+    pub root: u32,
+    pub nodes: Vec<VerifNode<V>>,
+    pub unused: Vec<u32>,
+    pub unused_capacity: usize,
+}
+
+impl<K, V: Clone> SetTree<K, V> {
+    pub fn verif_snapshot(&self) -> VerifSnapshot<V> {
+        VerifSnapshot {
+            root: self.root,
+            nodes: self
+                .store
+                .buffer
+                .iter()
+                .map(|n| VerifNode {
+                    parent: n.parent,
+                    left: n.left,
+                    right: n.right,
+                    red: n.color == Color::Red,
+                    value: n.value.clone(),
+                })
+                .collect(),
+            unused: self.store.unused.clone(),
+            unused_capacity: self.store.unused.capacity(),
+        }
+    }
+}
